@@ -285,7 +285,10 @@ def select(prop, tier, seed=0):
             cand = [o for o in ALL if o.get("family") == fam and o["tier"] == "rotated"]
             fixed = [o for o in cand if o["gap"] in (0, 1, -1, 53, -53)]
             rest = [o for o in cand if o not in fixed and abs(o["gap"]) <= 60]
-            rows += fixed + rng.sample(rest, min(7, len(rest)))
+            if os.environ.get("VERIF_ALL_GAPS"):
+                rows += cand      # full sweep (hours): every gap and both far cases of every variant
+            else:
+                rows += fixed + rng.sample(rest, min(7, len(rest)))
     if tier == "quick":
         # seeded sample of the per-gap leaf obligations: 2 per family among those measured <= 160 s
         rng = random.Random(seed)
